@@ -23,6 +23,17 @@ def main():
                      properties=["ActC10"], expect_violation=True)
     rep.extra["deviation_on_counterexample"] = {"resetKeepsViol": rr["violated"]}
 
+    # (B) specification -> code: behaviours of the life-cycle machine simulated by TLC, replayed on the real library
+    import behaviours
+    bres, behs = behaviours.simulate("C10_sim", U, ["x", "y"], num=(60 if quick else 600), depth=(7 if quick else 9), seed=core.seed())
+    rep.add_mc("TLC simulation of Rtamt.tla (Parse/Pastify/Update/Reset): behaviours generated for replay", bres, exhaustive=False)
+    if bres["violated"]:
+        rep.mc_violation("C10_sim", bres)
+    bcases = behaviours.to_cases(behs, ["x", "y"])
+    btr = runner.run_cases(bcases)
+    bvs, bgen, bdist = core.validate("C10_sim_replay", btr)
+    rep.add_traces(btr, bvs, bgen, bdist, nontrivial_key=lambda c: c["objs"][0]["text"] + str([(e["a"], e.get("s")) for e in c["events"]]))
+    rep.extra["tlc_behaviours_replayed"] = len(bcases)
     rng = random.Random(core.seed() * 7919 + 10)
     n = 600 if quick else 12000
     cases = []
